@@ -255,10 +255,25 @@ QUICK_SCEN = [(0x00, 0x00), (0x00, 0x32), (0x32, 0x00), (0x32, 0x32), (0x00, 0x3
 THOROUGH_SCEN = QUICK_SCEN + [(0x28, 0x00, 0x0E), (0x00, 0x00, 0x2B), (0x2B, 0x27, 0x00)]
 
 
+CONCRETE_SCEN = [((0x00, 0x00, 0x2B, 0x00), ((2, 2, 6, 2), {2: [10, 1, 2]})),
+                 ((0x00, 0x00, 0x2B, 0x00), ((2, 2, 6, 2), {2: [10, -4, 2]})),
+                 ((0x00, 0x32, 0x00), ((2, 4, 2), {1: [6, 0]}))]
+
+
 def check_callsite(sink, repo, folder, ma_cls, dn, de, basic, scen):
     cbb = ma_cls.lookup("_create_basic_block")
-    for ops in scen:
-        paths = [p for p in fm.run_block_model(repo, folder, ma_cls, dn, de, basic, ops) if p.entered]
+    undecided = None
+    n_bad = 0
+    for entry in scen:
+        ops, conc = entry if (len(entry) == 2 and isinstance(entry[0], tuple)) else (entry, None)
+        try:
+            paths = [p for p in fm.run_block_model(repo, folder, ma_cls, dn, de, basic, ops, concrete=conc) if p.entered]
+        except AnalysisError as ex:
+            # undecidable scenario: only a counter-example established by another scenario may still give a verdict
+            undecided = undecided or ex
+            sink.count("callsite_paths")
+            sink.count("callsite_scenarios")
+            continue
         if not paths:
             raise AnalysisError("MethodAnalysis.__init__ never reaches _create_basic_block in the model")
         sink.count("callsite_paths", len(paths))
@@ -270,11 +285,16 @@ def check_callsite(sink, repo, folder, ma_cls, dn, de, basic, scen):
             for cat, msg in fm.compare_callsite(p, ops, basic):
                 seen.setdefault(cat, msg)
         label = "ops=(%s)" % ", ".join("0x%02x" % o for o in ops)
+        if conc is not None:
+            label += " lengths=%s determineNext=%s" % (list(conc[0]), conc[1])
+        n_bad += len(seen)
         for cat, msg in seen.items():
             sink.check(cat, label + " " + cat, False, cbb, "set_childs call: " + cat, msg)
         if not seen:
             sink.check("callsite", label, True, cbb, "", "", detail="%d leader combinations: set_childs(determineNext result | []) once per block" % len(paths))
         sink.count("callsite_scenarios")
+    if undecided is not None and not n_bad:
+        raise undecided
 
 
 # ---------------------------------------------------------------------------
@@ -325,7 +345,7 @@ def run(ctx):
                   node=stmts[-1], detail="%s is routed through determineNext" % nm)
         ctx.count("flow_opcodes")
     ctx.floor("flow_opcodes", 22)
-    scen = THOROUGH_SCEN if ctx.tier == "thorough" else QUICK_SCEN
+    scen = (THOROUGH_SCEN if ctx.tier == "thorough" else QUICK_SCEN) + CONCRETE_SCEN
     check_callsite(ctx, repo, folder, ma_cls, dn, de, basic, scen)
     ctx.floor("callsite_scenarios", len(scen))
     ctx.floor("callsite_paths", len(scen))
